@@ -124,6 +124,7 @@ class NotC(FolBase):
 
 @register
 class AndC(FolBase):
+    lifts = True  # element-wise meaning: holds for every list length once the loops are independent (contracts/loops.py)
     target = "first_order_logic.And.__init__"
 
     def build(self, ps, P, case, ops, t1, t2):
@@ -138,6 +139,7 @@ class AndC(FolBase):
 
 @register
 class OrC(FolBase):
+    lifts = True  # element-wise meaning: holds for every list length once the loops are independent (contracts/loops.py)
     target = "first_order_logic.Or.__init__"
 
     def build(self, ps, P, case, ops, t1, t2):
@@ -160,6 +162,7 @@ class XorC(FolBase):
 
 @register
 class ImpliesC(FolBase):
+    lifts = True  # element-wise meaning: holds for every list length once the loops are independent (contracts/loops.py)
     target = "first_order_logic.Implies.__init__"
 
     def cond(self, P, t1, t2):
@@ -174,6 +177,7 @@ class ImpliesC(FolBase):
 
 @register
 class IfThenElseC(FolBase):
+    lifts = True  # element-wise meaning: holds for every list length once the loops are independent (contracts/loops.py)
     target = "first_order_logic.IfThenElse.__init__"
 
     def cond(self, P, t1, t2):
@@ -333,6 +337,7 @@ class OptionalConstraint(Contract):
 
 @register
 class ForceApplyN(Contract):
+    lifts = True  # element-wise meaning: holds for every list length once the loops are independent (contracts/loops.py)
     target = "constraint.ForceApplyNOptionalConstraints.__init__"
     props = ("C10", "C18")
     raises_props = ("C18",)
